@@ -36,7 +36,7 @@ from cryptography.hazmat.primitives.ciphers.aead import ChaCha20Poly1305
 from cryptography.hazmat.primitives.kdf.hkdf import HKDF
 
 PROTOS = ("mrp", "companion", "airplay")
-COQ_PROTO = {"mrp": "MRP", "companion": "Companion", "airplay": "AirPlay", "airplay-glue": "AirPlay"}
+COQ_PROTO = {"mrp": "MRP", "companion": "Companion", "airplay": "AirPlay", "airplay-glue": "AirPlay", "airplay-stream": "AirPlay"}
 
 # --------------------------------------------------------------------------- independent crypto
 RAWPUB = dict(encoding=serialization.Encoding.Raw, format=serialization.PublicFormat.Raw)
@@ -173,9 +173,14 @@ class World:
             ltpk = self.acc["B"].ltpk
         elif variant == "id-of-B":
             atv = self.acc["B"].ident
+        elif variant == "re-paired-B":
+            # the device was paired again and now is (keys and identifier of) accessory B
+            ltpk, atv = self.acc["B"].ltpk, self.acc["B"].ident
         return ltpk, ltsk, atv, cid
 
     def creds_str(self, variant=None):
+        if variant == "none":
+            return None
         return ":".join(binascii.hexlify(x).decode() for x in self.creds(variant))
 
 
@@ -496,7 +501,7 @@ def obs_record(p, resp, pt, exc, keys):
     }
 
 
-async def drive_mrp(W, cvar, resp, pt):
+async def drive_mrp(W, cvar, resp, pt, init="same"):
     from pyatv.auth.hap_srp import SRPAuthHandler
     from pyatv.const import Protocol
     from pyatv.core import MutableService
@@ -546,8 +551,9 @@ async def drive_mrp(W, cvar, resp, pt):
 
     conn = Conn()
     service = MutableService("id", Protocol.MRP, 0, {})
-    service.credentials = W.creds_str(cvar)
+    service.credentials = W.creds_str(cvar if init == "same" else init)
     proto = MrpProtocol(conn, SRPAuthHandler(), service, InfoSettings())
+    service.credentials = W.creds_str(cvar)          # what is stored when the object connects
     exc = None
     try:
         await proto.start()
@@ -561,7 +567,7 @@ async def drive_mrp(W, cvar, resp, pt):
     return obs_record("mrp", resp, pt, exc, keys)
 
 
-async def drive_companion(W, cvar, resp, pt):
+async def drive_companion(W, cvar, resp, pt, init="same"):
     from pyatv.auth.hap_srp import SRPAuthHandler
     from pyatv.const import Protocol
     from pyatv.core import MutableService
@@ -603,8 +609,9 @@ async def drive_companion(W, cvar, resp, pt):
 
     conn = Conn()
     service = MutableService("id", Protocol.Companion, 0, {})
-    service.credentials = W.creds_str(cvar)
+    service.credentials = W.creds_str(cvar if init == "same" else init)
     proto = CompanionProtocol(conn, SRPAuthHandler(), service)
+    service.credentials = W.creds_str(cvar)
     exc = None
     try:
         await proto.start()
@@ -782,6 +789,69 @@ async def drive_airplay_setup(W, case, resp, pt):
                 pass
     keys = conn.receive_processor is not before[0] or conn.send_processor is not before[1]
     return obs_record("airplay-setup", resp, pt, exc, keys)
+
+
+GENUINE_FOR = {None: {}, "ltpk-of-B": {"signer": "B"}, "re-paired-B": {"eph": "B", "id": "B", "signer": "B"}}
+
+
+async def drive_airplay_stream(W, cvar, resp, pt, init="same", twice=False):
+    """AirPlayStream(core) is created while [init] is stored; create_airplay_protocol(service, rtsp)
+    + setup() (what play_url does before streaming) run while [cvar] is stored.  twice: the same
+    stream object already connected once (genuine accessory of that time) before the replacement."""
+    from pyatv import conf
+    from pyatv.const import Protocol
+    from pyatv.core import Core, CoreStateDispatcher, MutableService, ProtocolStateDispatcher
+    from pyatv.protocols.airplay import AirPlayStream
+    from pyatv.settings import Settings
+    from pyatv.support.state_producer import StateProducer
+
+    first = cvar if init == "same" else init
+    service = MutableService("id", Protocol.AirPlay, 7000, {"features": "0x0,0x10000"}, credentials=W.creds_str(first))
+    config = conf.AppleTV("127.0.0.1", "verif")
+    config.add_service(service)
+    core = Core(asyncio.get_event_loop(), config, service, Settings(), StateProducer(), types.SimpleNamespace(session=None),
+                lambda *a: (lambda: None), ProtocolStateDispatcher(Protocol.AirPlay, CoreStateDispatcher()))
+    stream = AirPlayStream(core)
+
+    async def connect_once():
+        conn = fake_http(resp)
+        before = (conn.receive_processor, conn.send_processor)
+
+        async def no_rtsp(*a, **k):
+            raise RuntimeError("harness: nothing behind the verification")
+
+        rtsp = types.SimpleNamespace(connection=conn, setup=no_rtsp)
+        exc = None
+        try:
+            proto = stream.create_airplay_protocol(service, rtsp)
+            await proto.setup(1, 2)
+        except BaseException as ex:  # noqa
+            exc = ex
+        return exc, conn.receive_processor is not before[0] or conn.send_processor is not before[1]
+
+    if twice and first != "none":
+        await connect_once()
+    service.credentials = W.creds_str(cvar)
+    n = len(pt.raw)
+    exc, keys = await connect_once()
+    o = obs_record("airplay-stream", resp, pt, exc, keys)
+    if len(pt.raw) == n:
+        o["raw"] = o["procedure"] = None        # no procedure ran in the connect that is judged
+    return o
+
+
+def run_history_proto(p, W, case):
+    hist = case["history"]
+    specs = case["spec"]
+    twice = bool(hist.get("twice")) and p == "airplay-stream" and hist["init"] != "none"
+    if twice:
+        specs = [GENUINE_FOR.get(None if hist["init"] == "same" else hist["init"], {}), case["spec"]]
+    resp = Responder(W, specs)
+    with Patches(W) as pt:
+        resp.shim = pt.shim
+        drv = {"mrp": drive_mrp, "companion": drive_companion, "airplay-stream": drive_airplay_stream}[p]
+        kw = {"twice": True} if twice else {}
+        return vloop.run(drv, W, case.get("cvar"), resp, pt, hist["init"], **kw)
 
 
 def run_announced(p, W, case):
@@ -1032,6 +1102,13 @@ def oracle(case, res):
         # airplay-rc: the set-up goes on after verification (and fails against the fake)
         inner_only = bool(o.get("no_top")) or p in ("airplay-rc", "airplay-setup")
         connected = (o["raw"] == "Accept") if inner_only else (o["surfaced"] is None)
+        if case.get("history") and case.get("cvar") == "none":
+            # nothing is stored when the object connects: no verification is asked for, but then no
+            # keys either (and certainly none from credentials that were stored earlier)
+            if o["keys"] or o["raw"] == "Accept":
+                errs.append(("C06:%s:keys-enabled-without-verify" % p,
+                             "%s verified against / installed keys from credentials that were no longer stored when it connected" % p))
+            continue
         if connected and not genuine:
             errs.append(("C06:%s:forged-reply-accepted" % p,
                          "%s connected although the reply does not prove the paired identity (%s)" % (p, why or "transport fault")))
@@ -1344,6 +1421,51 @@ def gen_announced(ctx, W, full):
                 out.append({"family": "announce:connect:" + name, "spec": spec, "cvar": None, "f1": None, "f3": None,
                             "wseed": W.wseed, "id_len": len(W.acc["A"].ident), "announce": {"stored": "hap", "props": props, "connect": True}})
     return out
+
+
+# --------------------------------------------------------------------------- credentials replaced while the object exists
+HISTORY_PROTOS = ("mrp", "companion", "airplay-stream")
+
+
+def gen_history(ctx, W):
+    """stored credentials at construction x stored credentials at connect x who answers"""
+    out = []
+    kinds = [None, "ltpk-of-B", "re-paired-B", "none"]
+    for init in kinds:
+        for at in kinds:
+            for name, spec in (("signed-by-A", {}), ("signed-by-B-as-A", {"signer": "B"}), ("accessory-B", {"eph": "B", "id": "B", "signer": "B"}),
+                               ("attacker", {"eph": "M", "signer": "B", "id": "B", "sign_id": "A"})):
+                for twice in (False, True):
+                    if twice and init == "none":
+                        continue
+                    out.append({"family": "history:%s->%s:%s%s" % (init or "A", at or "A", name, ":second-connect" if twice else ""),
+                                "spec": spec, "cvar": at, "f1": None, "f3": None, "wseed": W.wseed, "id_len": len(W.acc["A"].ident),
+                                "history": {"init": init if init is not None else "A-initially", "twice": twice}})
+    return out
+
+
+def evaluate_history(W, case):
+    hist = dict(case["history"])
+    hist["init"] = None if hist["init"] == "A-initially" else hist["init"]
+    c2 = dict(case, history=hist)
+    protos = [p for p in HISTORY_PROTOS if not hist.get("twice") or p == "airplay-stream"]
+    obs = [run_history_proto(p, W, c2) for p in protos]
+    for o in obs:
+        if o["proto"] == "airplay-stream":
+            o["no_top"] = True
+    res = {"obs": obs, "v1": None, "judge": None, "pd": None, "cpub": None, "cpriv": None, "harness_error": None}
+    at = case.get("cvar")
+    ref = next((o for o in obs if o["cpub"] is not None and o["cpriv"] is not None and o["raw"] is not None), None)
+    if at == "none" or ref is None:
+        res["judge"] = {"genuine": False, "tables": None, "fields": None,
+                        "why": "no credentials are stored when the object connects" if at == "none" else "no pair-verify exchange took place although credentials are stored"}
+        return res
+    pd = respond(W, case["spec"], ref["cpub"])
+    res.update(pd=pd, cpub=ref["cpub"], cpriv=ref["cpriv"], judge=judge(W, at, ref["cpriv"], ref["cpub"], pd))
+    for o in obs:
+        if o["raw"] is not None and o["cpub"] is not None and (o["cpub"] != ref["cpub"] or o["m2"] != pd):
+            res["harness_error"] = "client keys / accessory answers differ between the runs of one history case"
+    return res
 
 
 # --------------------------------------------------------------------------- second verify on the same object
@@ -1725,6 +1847,8 @@ def eval_one(arg):
             _, res = evaluate_twice(W, case["twice"])
         elif case.get("announce"):
             res = evaluate_announced(W, case)
+        elif case.get("history"):
+            res = evaluate_history(W, case)
         else:
             res = evaluate(W, case, protos=protos)
     except BaseException as ex:  # noqa
@@ -1812,7 +1936,7 @@ def judge_and_record(ctx, case, res, coq_items):
         ctx.count("impl:%s:%s" % (o["proto"], "connected" if o["raw"] == "Accept" and o["surfaced"] is None else (o["surfaced"] or o["raw"])))
     for key, what in errs:
         ctx.violation(key, what, {"case": case, "summary": summary(case, res)})
-    if any(o["proto"] in COQ_PROTO for o in res["obs"]) or res["v1"] is not None:
+    if (any(o["proto"] in COQ_PROTO for o in res["obs"]) or res["v1"] is not None) and j["tables"] is not None:
         coq_items.append((world_of(case), case, res))
 
 
@@ -1902,6 +2026,11 @@ def run(ctx):
     acases = gen_announced(ctx, Wg, full=ctx.thorough)
     for case, res in zip(acases, eval_many(acases, ())):
         judge_and_record(ctx, case, res, coq_items)
+    # 2c. history: credentials replaced between construction and connect / between two connects
+    for Wh in worlds[:2]:
+        hcases = gen_history(ctx, Wh)
+        for case, res in zip(hcases, eval_many(hcases, ())):
+            judge_and_record(ctx, case, res, coq_items)
     # 3. model vs implementation, evaluated inside Coq
     t_impl = time.time() - ctx.t0 - t_build
     sel_items = [x[1:] for x in coq_items if x[0] == "sel"]
@@ -1935,7 +2064,9 @@ def run(ctx):
                 "round's reply; the glue: every stored credential kind (none, HAP, legacy, transient, null, invalid) x announced properties (feature words "
                 "incl. the transient-pairing bits under features/ft, absent, garbage; model strings incl. AudioAccessory*/AppleTV*; OS versions; noise) -> "
                 "what extract_credentials/pair_verify select, and with stored HAP credentials connecting through verify_connection(extract_credentials(..)) "
-                "and airplay.setup() against an impostor (no long-term key; also plays transient pairing along) and the genuine accessory.  Each case runs MrpProtocol.start, CompanionProtocol.start, verify_connection and (where both fields exist) "
+                "and airplay.setup() against an impostor (no long-term key; also plays transient pairing along) and the genuine accessory; history: credentials stored at "
+                "construction x credentials stored at connect (A, new key, re-paired as B, none) x who answers, for MrpProtocol, CompanionProtocol and an "
+                "AirPlayStream object (also as its second connect) - judged against what is stored when the object connects.  Each case runs MrpProtocol.start, CompanionProtocol.start, verify_connection and (where both fields exist) "
                 "SRPAuthHandler.verify1; non-trivial = the pairing data carried both fields; distinct by (recipe, credentials variant, faults, id length)")
     ctx.trusted += [
         "hand-written model coq/C06/Model.v (verify1, the three verify_credentials, error_handler, verify_connection mapping) tied by the differential run of this file, evaluated in Coq by vm_compute with the oracles instantiated by tables computed independently with the `cryptography` package",
